@@ -101,4 +101,6 @@ _jobs_c15b = jobs
 
 
 def jobs(tier):
-    return _jobs_c15b(tier) + lemma_jobs()
+    # "lookups by key remain correct afterwards": Sort rebuilds the bucket chains with HashTable::generateHash (bounded stand-in shared with C13)
+    import C13
+    return _jobs_c15b(tier) + lemma_jobs() + [C13.generate_hash_job(c) for c in (2, 4)]
